@@ -118,7 +118,25 @@ func c03nsJudge(c c03nsCase, rep *c17Report) (error, int, int) {
 	}
 	must, may := map[string]int{}, map[string]int{}
 	nmust := 0
+	naddr := int(p.Size())
+	chunkOf := func(at int) int { // which chunk's socket is open when the at-th probe is written
+		acc := 0
+		for ci := 0; ci*200 < len(c.Ports); ci++ {
+			np := 0
+			for _, r := range chunkRanges(c.Ports, ci) {
+				np += int(r.End-r.Start) + 1
+			}
+			acc += np * naddr
+			if at <= acc {
+				return ci
+			}
+		}
+		return 0
+	}
 	for _, e := range c.Events {
+		if len(c.Ports) > 200 && s.Ports != nil {
+			s.Ports = chunkRanges(c.Ports, chunkOf(e.AtWrite))
+		}
 		v, key := shape.Classify(s, e.Frame)
 		switch v {
 		case shape.Yes:
@@ -164,7 +182,9 @@ func c03nsCheck(c c03nsCase) *kit.Verdict {
 	v := &kit.Verdict{Units: len(c.Events)}
 	v.Label("scan=%s", scanKind(c.Cmd))
 	v.Label("link=%s", map[bool]string{false: "veth", true: "tun"}[c.Tun])
+	jw := startJitterWatch()
 	rep, args, err := c03nsRun(c, c03nsExitMs)
+	lateness := jw.Stop()
 	if err != nil {
 		fmt.Fprintln(os.Stderr, "C03 netns infrastructure problem:", err)
 		return &kit.Verdict{Inconclusive: true}
@@ -222,7 +242,17 @@ func c03nsCheck(c c03nsCase) *kit.Verdict {
 			return &kit.Verdict{Inconclusive: true}
 		}
 		if jerr2, _, _ := c03nsJudge(c, rep2); jerr2 == nil {
-			if c.Late {
+			if c.Late && lateness < 40*time.Millisecond {
+				// a lost late reply must be reproducible: a single miss can be a scheduling accident of the sx process
+				for try := 0; try < 2; try++ {
+					rep3, _, err3 := c03nsRun(c, c03nsExitMs)
+					if err3 != nil || rep3.Exit != 0 || rep3.Injected != len(c.Events) {
+						return &kit.Verdict{Inconclusive: true}
+					}
+					if e3, _, _ := c03nsJudge(c, rep3); e3 == nil {
+						return &kit.Verdict{Inconclusive: true}
+					}
+				}
 				return v.Failf("%s\nwith --exit-delay %dms: %v\n(the same traffic is reported correctly with a 3 s exit delay: replies inside the exit delay are lost)", line, c03nsExitMs, jerr)
 			}
 			return &kit.Verdict{Inconclusive: true}
@@ -237,7 +267,7 @@ func c03nsCheck(c c03nsCase) *kit.Verdict {
 func TestC03Netns(t *testing.T) {
 	kit.Run(t, kit.Spec[c03nsCase]{
 		Prop: "C03",
-		Rule: "the REAL sx binary in a fresh network namespace (kernel BPF, real AF_PACKET adapter, TPACKET ring): arp / icmp / udp / tcp syn / tcp fin / tcp --flags over a /28../30 attached to a veth (Ethernet) or a tun device (raw IP), 1..20 frames injected on the far end of the veth / written into the tun as reactions to the k-th probe: reply-shaped frames and near misses exactly as in TestC03Detection (subnet edges, port edges, flag sets, options, ICMP types, foreign protocols; VLAN-tagged frames are not generated here because the kernel strips the tag before packet sockets see the frame). Oracle: stdout records = one per frame that shape.Classify calls reply-shaped (multiset); a miss is re-decided with a 3 s exit delay (and counts as a violation when a reply to the last probe, inside the 400 ms exit delay, is only reported with the long delay); the process must not run shorter than the exit delay. non-trivial: >=1 reply-shaped and >=1 other frame; distinct by case",
+		Rule: "the REAL sx binary in a fresh network namespace (kernel BPF, real AF_PACKET adapter, TPACKET ring): arp / icmp / udp / tcp syn / tcp fin / tcp --flags over a /28../30 (1..3 port ranges, sometimes 201..230 ranges = several sockets and kernel filters) attached to a veth (Ethernet) or a tun device (raw IP), 1..20 frames injected on the far end of the veth / written into the tun as reactions to the k-th probe: reply-shaped frames and near misses exactly as in TestC03Detection (subnet edges, port edges, flag sets, options, ICMP types, foreign protocols; VLAN-tagged frames are not generated here because the kernel strips the tag before packet sockets see the frame). Oracle: stdout records = one per frame that shape.Classify calls reply-shaped (multiset); a miss is re-decided with a 3 s exit delay (and counts as a violation when a reply to the last probe, inside the 400 ms exit delay, is only reported with the long delay - unless a scheduler-lateness monitor saw the machine stall for 40 ms or more during the run: then the case is discarded); the process must not run shorter than the exit delay. non-trivial: >=1 reply-shaped and >=1 other frame; distinct by case",
 		Gen: func(t *rapid.T) c03nsCase {
 			c := c03nsCase{Cmd: rapid.SampledFrom([]string{"arp", "icmp", "udp", "tcp", "tcp syn", "tcp fin", "tcp --flags fin,ack"}).Draw(t, "cmd"), Bits: rapid.SampledFrom([]int{28, 29, 30}).Draw(t, "bits")}
 			base := strings.Fields(c.Cmd)[0]
@@ -246,9 +276,17 @@ func TestC03Netns(t *testing.T) {
 			}
 			if !cmdPortless(base) {
 				nr := rapid.IntRange(1, 3).Draw(t, "nranges")
+				if rapid.IntRange(0, 5).Draw(t, "chunked") == 0 {
+					// more than 200 ranges: one socket and one kernel filter per chunk
+					nr, c.Bits = rapid.IntRange(201, 230).Draw(t, "manyranges"), 30
+				}
 				for i := 0; i < nr; i++ {
 					st := uint16(kit.UniformInt64(t, "pstart", 1, 65000))
-					c.Ports = append(c.Ports, gram.PortRange{Start: st, End: st + uint16(rapid.IntRange(0, 2).Draw(t, "w"))})
+					w := 0
+					if nr <= 3 {
+						w = rapid.IntRange(0, 2).Draw(t, "w")
+					}
+					c.Ports = append(c.Ports, gram.PortRange{Start: st, End: st + uint16(w)})
 				}
 			}
 			// reuse the traffic generator of the virtual-wire check
